@@ -1,3 +1,4 @@
 void h_ctor(void) { PedersenCommitmentScheme *self; size_t n; ios_t *in; unsigned long f, g; PedersenCommitmentScheme__ctor_stream(self, n, in, f, g);
   __CPROVER_assert(__tmcg_thrown != 0, "REACHABILITY-CANARY (must fail): a construction without exception exists"); }
 void h_publish(void) { PedersenCommitmentScheme *self; ios_t *out; PedersenCommitmentScheme__PublishGroup(self, out); }
+void h_verify(void) { PedersenCommitmentScheme *self; mpz_srcptr c, r; vec_mpz *m; PedersenCommitmentScheme__Verify(self, c, r, m); }
